@@ -263,11 +263,15 @@ func (c *Cluster) restartLoop() {
 		c.Mon.onRestart(inc)
 		// further crash points planned for this validator at the height it is in
 		c.armCrashes(inc, c.Mon.LastFinalizedOf(req.idx)+1)
-		if err := c.startInc(inc); err != nil {
-			c.Mon.restartFailed(inc, err)
-		} else {
-			c.Mon.checkRemembered(inc, req.imageDir)
-		}
+		// Start replays the WAL and may itself reach an armed crash point, which
+		// freezes the calling goroutine: never run it on this loop's goroutine
+		go func(inc *Inc, dir string) {
+			if err := c.startInc(inc); err != nil {
+				c.Mon.restartFailed(inc, err)
+			} else {
+				c.Mon.checkRemembered(inc, dir)
+			}
+		}(inc, req.imageDir)
 	}
 }
 
